@@ -183,6 +183,9 @@ pub fn gen_sched(seed: u64, o: &GenOpts) -> SchedScenario {
         personality,
         sched_seed: rw.next_u64(),
         n_schedules: if o.tier == Tier::Quick { 4 } else { 8 },
+        // C10..C12: a third of the runs each with the recording storage alone, teeing into the real HashMap
+        // backend, teeing into the real ndarray backend
+        backend: if o.prop == "C13" { crate::sched::RealBackend::None } else { *rw.pick(&[crate::sched::RealBackend::None, crate::sched::RealBackend::HashMap, crate::sched::RealBackend::Ndarray]) },
         only_schedule: None,
         enumerate_faults: false,
         only_fault: None,
